@@ -609,6 +609,7 @@ type c15WinState struct {
 	forkSeen   uint64
 	firstEpoch []uint64 // controller's firstEpochOfSyncPeriod for periods 0..5
 	endSlot    uint64   // observation ends at the start of this slot
+	reorgSlot  uint64   // first slot of the epoch in which the current dependent root changes (0: no reorg)
 	desc       string
 }
 
@@ -690,6 +691,26 @@ func c15WindowBody(st *c15WinState, epp, fork, s0 uint64) {
 	for p := uint64(0); p < 6; p++ {
 		st.firstEpoch = append(st.firstEpoch, uint64(w.ctrl.VerifC15FirstEpochOfSyncPeriod(p)))
 	}
+	// Optionally the chain reorganises in the first epoch of one of the later periods: a head event one second
+	// into the period's first slot, and one in the next slot of that epoch that announces another current
+	// dependent root (the controller then obtains the duties of the period after it again).
+	if st.mode == "S" {
+		var at []uint64
+		for p := pStart + 1; p*epp*c15SPE+c15SPE <= st.endSlot && p*epp >= fork; p++ {
+			if p*epp*c15SPE > s0 {
+				at = append(at, p*epp*c15SPE)
+			}
+		}
+		if k := mc.Choose(len(at) + 1); k > 0 {
+			rs := at[k-1]
+			st.reorgSlot = rs
+			for i, cur := range []phase0.Root{root(0x21), root(0x22)} {
+				slot := rs + uint64(i)
+				mc.Sleep(int64(slot-s0)*int64(c15SlotDur) + int64(time.Second) - mc.Now())
+				w.ev.deliver("head", &apiv1.HeadEvent{Slot: phase0.Slot(slot), Block: c15Root(slot), PreviousDutyDependentRoot: root(0x11), CurrentDutyDependentRoot: cur})
+			}
+		}
+	}
 	if d := int64(st.endSlot-s0)*int64(c15SlotDur) - int64(time.Second) - mc.Now(); st.endSlot > s0 && d > 0 {
 		mc.Sleep(d)
 	}
@@ -700,8 +721,8 @@ func c15WindowBody(st *c15WinState, epp, fork, s0 uint64) {
 			ps = append(ps, fmt.Sprint(p))
 		}
 	}
-	st.desc = fmt.Sprintf("EPOCHS_PER_SYNC_COMMITTEE_PERIOD=%d SLOTS_PER_EPOCH=%d ALTAIR_FORK_EPOCH=%d, clock at the start of slot %d (epoch %d), mode %s, members %v (of several, the last has exited and is not yet withdrawable) in the committee of period(s) %s, strict-node=%v",
-		epp, c15SPE, fork, s0, e0, st.mode, st.members, strings.Join(ps, ","), st.strict)
+	st.desc = fmt.Sprintf("EPOCHS_PER_SYNC_COMMITTEE_PERIOD=%d SLOTS_PER_EPOCH=%d ALTAIR_FORK_EPOCH=%d, clock at the start of slot %d (epoch %d), mode %s, members %v (of several, the last has exited and is not yet withdrawable) in the committee of period(s) %s, strict-node=%v, current dependent root changes in the epoch of slot %d (0: never)",
+		epp, c15SPE, fork, s0, e0, st.mode, st.members, strings.Join(ps, ","), st.strict, st.reorgSlot)
 }
 
 func c15WindowCheck(st *c15WinState, r *mc.Result) mc.Verdict {
